@@ -422,7 +422,7 @@ def b_open(it, path, mode='r', *a, **kw):
     writing = any(c in mode for c in 'wax+')
     it.path.events.append(('open', path, mode))
     if writing:
-        it.path.writes.append(('open', path, mode))
+        it.path.writes.append(('open:' + mode, path))
     f = SObj('file', {'path': path, 'mode': mode, '__open__': False})
 
     def f_read(it2, self, *args):
@@ -888,6 +888,11 @@ _DT = _dt_ctor('datetime')
 _D = _dt_ctor('date')
 
 
+_DEFAULT_LOADER = SObj('unittest.defaultTestLoader', {'__open__': False})
+_TESTLOADER_CLASS = SObj('unittest.TestLoader', {'__init__': Builtin(lambda it, *a, **k: None),
+                                                 '__open__': False})
+
+
 def module_attr(m, name):
     full = m.name + '.' + name
     table = {
@@ -905,4 +910,15 @@ def module_attr(m, name):
         return Builtin(sys_exit)
     if full in ('os.path', 'os.environ'):
         return ModuleRef(full)
+    if full == 'unittest.defaultTestLoader':
+        return _DEFAULT_LOADER
+    if full == 'unittest.TestLoader':
+        return _TESTLOADER_CLASS
+    if full == 'unittest.main':
+        def unittest_main(it, *args, **kw):
+            it.path.events.append(('unittest.main', args, dict(kw)))
+            return None
+        return Builtin(unittest_main)
+    if full == 'sys.argv':
+        return ['<sys.argv>']
     raise Unsupported('module attribute %s' % full)
